@@ -46,6 +46,8 @@ Record menv := {
   urn_identity : N -> N;
   urn_scheme : N -> N;
   urn_set_channel : option N -> N -> N;       (* raw URN after ContactURN.SetChannel(channel) *)
+  urn_channel : N -> option N;               (* the channel a raw URN names in its channel query, if the assets have
+                                                it (flows.ParseRawURN) *)
   tel_scheme : N;                            (* urns.Phone.Prefix *)
   (* channel assets *)
   chan_can_send : N -> bool;                 (* HasRole(ChannelRoleSend) *)
@@ -98,8 +100,9 @@ Definition has_urn (E : menv) (us : list curn) (u : N) : bool :=
   let u' := urn_normalize E u in
   existsb (fun x => N.eqb (urn_identity E (cu_urn x)) (urn_identity E u')) us.
 
+(* URNsModifier passes AddURN the channel the URN itself names (fix F3g; before, always nil) *)
 Definition add_urn (E : menv) (us : list curn) (u : N) : list curn :=
-  if has_urn E us u then us else us ++ [{| cu_urn := u; cu_chan := None |}].
+  if has_urn E us u then us else us ++ [{| cu_urn := u; cu_chan := urn_channel E u |}].
 
 Definition remove_urn (E : menv) (us : list curn) (u : N) : list curn :=
   if negb (has_urn E us u) then us
@@ -355,6 +358,18 @@ Definition mod_env_ok (E : menv) (m : modifier) (c : contact) : bool :=
       forallb (fun u => N.eqb (urn_set_channel E ch (urn_set_channel E ch u)) (urn_set_channel E ch u)
                         && N.eqb (urn_scheme E (urn_set_channel E ch u)) (urn_scheme E u))
               (raw_urns (c_urns c))
+  | _ => true
+  end.
+
+(* the channel pointer of every URN is the channel its raw form names: what reading the marshalled contact back
+   (flows.ParseRawURN) produces; [chan_env_ok]: SetChannel writes the channel it is given into the raw URN (computable,
+   evaluated on every case of the correspondence run) *)
+Definition chan_ok_b (E : menv) (c : contact) : bool :=
+  forallb (fun x => optN_eqb (cu_chan x) (urn_channel E (cu_urn x))) (c_urns c).
+
+Definition chan_env_ok (E : menv) (m : modifier) (c : contact) : bool :=
+  match m with
+  | MChannel ch => forallb (fun u => optN_eqb (urn_channel E (urn_set_channel E ch u)) ch) (raw_urns (c_urns c))
   | _ => true
   end.
 
